@@ -637,7 +637,7 @@ theorem step_nodeInv (w : World) (op : Op) (h : NodeInv w) (hok : okEvent w op =
     history whose environment events are admissible (`restricted`: after the node has been recorded no event puts
     the reservation or the pod on a new node), every evictor call made on behalf of a reservation-first job is
     issued while the reservation's node, if it has one, differs from the pod's node. -/
-theorem evict_node_differs_restricted (ops : List Op) :
+theorem evict_node_differs_restricted_core (ops : List Op) :
     ∀ w : World, NodeInv w → restricted w ops = true →
       ∀ s ∈ (run w ops).2, s.job0.spec.direct = false →
         ∀ r p, s.env.resv = some r → s.env.pod = some p → r.node ≠ 0 → r.node ≠ p.node := by
@@ -666,11 +666,11 @@ instance (w : World) : Decidable (NodeInv w) := by unfold NodeInv; exact inferIn
 
 /-- corollary: a job that starts with no recorded target node (every freshly created job), any admissible
     history, any write-fault masks -/
-theorem evict_node_differs_restricted_fresh (ops : List Op) (w : World) (h : NCs w.job.status)
+theorem evict_node_differs_restricted_fresh_core (ops : List Op) (w : World) (h : NCs w.job.status)
     (hres : restricted w ops = true) :
     ∀ s ∈ (run w ops).2, s.job0.spec.direct = false →
       ∀ r p, s.env.resv = some r → s.env.pod = some p → r.node ≠ 0 → r.node ≠ p.node :=
-  evict_node_differs_restricted ops w (nodeInv_of_ncs h) hres
+  evict_node_differs_restricted_core ops w (nodeInv_of_ncs h) hres
 
 /-! ### non-vacuity -/
 
